@@ -1,4 +1,5 @@
 import ZnVerif.Properties.C09
+import ZnVerif.Properties.C09Sites
 open ZnVerif.Properties.C09
 #print axioms raise_skips_rest
 #print axioms throw_raises
@@ -26,3 +27,14 @@ open ZnVerif.Properties.C09
 #print axioms catch_restores
 #print axioms function_converts_runtime_error
 #print axioms function_passes_other_errors
+
+-- regenerated tie: where the Go evaluator pushes / pops frames, opens / closes scopes, stamps lines, reads / writes the return slot
+-- (Generated/FrameSites.lean, extracted from $ZN_REPO on every run) = the sites the models mirror (Properties/C09Sites.lean)
+#print axioms ZnVerif.Properties.C09Sites.frame_sites_all_modelled
+#print axioms ZnVerif.Properties.C09Sites.frame_primitives_all_modelled
+#print axioms ZnVerif.Properties.C09Sites.frame_inventory_nonempty
+#print axioms ZnVerif.Properties.C09Sites.sites_outside_evaluator_model
+#print axioms ZnVerif.Properties.C09Sites.vm_EndScope_has_no_caller
+#print axioms ZnVerif.Properties.C09Sites.bound_scopes_are_deferred_at_once
+#print axioms ZnVerif.Properties.C09Sites.every_pop_is_conditional
+#print axioms ZnVerif.Properties.C09Sites.every_push_has_a_later_pop
